@@ -87,17 +87,24 @@ def _first_difference(impl, model):
             'events_before_in_this_pass': before}
 
 
-def engine_event_correspondence(rep, binp, seed, n):
+def engine_event_correspondence(rep, binp, seed, n, real=False):
     """EVENT-LEVEL correspondence between Model/Engine.v and TaffyTree in exact-key mode: on random API histories the traced memo
     (Model/EngineReplay.v, proved to be Engine.memo plus a log) with the real algorithms' recorded behaviour replayed must predict
     every compute_cached_layout call (node, input, hit/miss), every compute_hidden_layout and set_unrounded_layout, in order,
-    and the dirty flag of every node after every API call."""
+    and the dirty flag of every node after every API call.
+    real=True (notes/REALHIST.md): the same histories WITHOUT the exact-key hook against the engine over the REAL cache
+    (Model/EngineReal.v memo_real / gmark_dirty over rcache = src/tree/cache.rs, forest layer Model/EngineForestG.v): hit/miss is decided
+    by the lossy Cache.compat on the key projection of the inputs and the cached sizes, over binary32."""
     name = ('cache events of every layout pass (compute_cached_layout node/input/hit-or-miss, compute_hidden_layout, set_unrounded_layout) '
             '+ dirty flags after every API call: TaffyTree in exact-key mode vs Model/Engine.v memo/cget/cstore/hide/mutate with the real '
             'algorithms replayed (Model/EngineReplay.v)')
-    rc, out = vh(binp, ['engev', 'cases', seed, n], timeout=300)
+    if real:
+        name = ('REAL CACHE (no exact-key hook): cache events of every layout pass (compute_cached_layout node/input/hit-or-miss by the lossy '
+                'compatibility test, compute_hidden_layout, set_unrounded_layout) + dirty flags after every API call: TaffyTree vs '
+                'Model/EngineReal.v memo_real/rget/rstore/rclear/rdirty/gmark_dirty with the real algorithms replayed (Model/EngineReplayReal.v)')
+    rc, out = vh(binp, ['engev', 'cases', seed, n] + ([0, 'real'] if real else []), timeout=300)
     if rc != 0:
-        rep.add_broken('correspondence', 'vh engev cases', out[-800:])
+        rep.add_broken('correspondence', 'vh engev cases' + (' real' if real else ''), out[-800:])
         return
     cases, impl = parse_cr(out)
     st = re.search(r'EVSTATS passes (\d+) events (\d+) hits (\d+) misses (\d+) hidden (\d+) entries (\d+) outputs (\d+) anomalies (\d+)', out)
@@ -106,11 +113,18 @@ def engine_event_correspondence(rep, binp, seed, n):
         rep.add_broken('correspondence', 'event trace recording', a)
     try:
         with Lock('coq'):
-            rcm, outm, _ = coq_make(['Model/EngineReplayRun.vo', 'Proofs/EngineReplay.vo'])
+            rcm, outm, _ = coq_make(['Model/EngineReplayRealRun.vo', 'Proofs/EngineReplayReal.vo'] if real else
+                                    ['Model/EngineReplayRun.vo', 'Proofs/EngineReplay.vo'])
         if rcm != 0:
             raise RuntimeError(outm[-1500:])
         t0 = time.time()
-        model = run_model(rep.pid + 'EV', 'From TV Require Import Model.EngineReplayRun.', 'run_case', cases, scope='Z', elem='list Z')
+        if real:
+            model = run_model(rep.pid + 'EVR', 'From TV Require Import Model.EngineReplayRealRun.', 'run_case_real', cases, scope='Z', elem='list Z')
+            # one model-only integer per pass: -(1000 + lossy hits of the pass) (ghost counter)
+            lossy_per_history = [sum(-x - 1000 for x in m if x <= -1000) for m in model]
+            model = [[x for x in m if x > -1000] for m in model]
+        else:
+            model = run_model(rep.pid + 'EV', 'From TV Require Import Model.EngineReplayRun.', 'run_case', cases, scope='Z', elem='list Z')
         # report through diff_results; for a disagreeing history only a window around the first difference is kept as integers
         # (key = [seed, index]: `vh engev cases <seed> 1 <index>` regenerates it) and the difference is decoded once
         keys, iw, mw, first = [], [], [], None
@@ -122,16 +136,21 @@ def engine_event_correspondence(rep, binp, seed, n):
             j = d['position']
             keys.append([seed, k]); iw.append(a[max(0, j - 12):j + 12]); mw.append(b[max(0, j - 12):j + 12])
             if first is None:
-                first = dict(d, seed=seed, history_index=k, replay='vh engev cases %s 1 %d' % (seed, k))
+                first = dict(d, seed=seed, history_index=k, replay='vh engev cases %s 1 %d%s' % (seed, k, ' real' if real else ''))
         bad = diff_results(rep, name, keys, iw, mw, max_report=3)
         if first is not None:
             rep.add_broken('correspondence', 'first event-level disagreement (decoded)', first)
     except RuntimeError as ex:
-        rep.add_broken('correspondence', 'engine replay model evaluation', str(ex)[-1500:])
-        bad, t0 = [], time.time()
+        rep.add_broken('correspondence', 'engine replay model evaluation' + (' (real cache)' if real else ''), str(ex)[-1500:])
+        bad, t0, lossy_per_history = [], time.time(), []
     ev = {'histories': len(cases), 'disagreements': len(bad), 'model_seconds': round(time.time() - t0, 1)}
+    if real:
+        ev['histories_skipped (a key that does not match itself cannot be probed)'] = len([l for l in out.split('\n') if l.startswith('SKIPPED ')])
+        ev['lossy_hits_in_the_model (ghost counter: answered by an entry stored for another complete input)'] = sum(lossy_per_history)
+        ev['histories_with_a_lossy_hit'] = sum(1 for x in lossy_per_history if x > 0)
+        ev['distinct_inputs'] = sum(c[1 + 2 * c[0]] for c in cases)
     if st:
         ev.update(dict(zip(['layout_passes', 'events_compared', 'cache_hits', 'cache_misses', 'hidden_layouts', 'script_table_entries',
                             'distinct_evaluation_records', 'recording_anomalies'], map(int, st.groups()))))
-    rep.cov['event_level_correspondence'] = ev
+    rep.cov['event_level_correspondence_real_cache' if real else 'event_level_correspondence'] = ev
     return bad
